@@ -21,9 +21,6 @@ package dnsdata
 //@ func ipFillUnmasked
 //@ trusted
 //@ pure
-//@ func ipIncrementByOne
-//@ trusted
-//@ pure
 
 //@ func copyLocID
 //@ ensures[ok] err == nil <==> (locID != nil && len(locID) == 2)
@@ -168,3 +165,51 @@ package dnsdata
 //@ ensures[head] err == nil ==> tlit(old(ntok), "+") && (r.iswildcard ==> tlit(old(ntok) + 1, "*."))
 //@ ensures[fields] err == nil ==> tdom(old(ntok) + 1 + ite(r.iswildcard, 1, 0), r.dom) && tsep(old(ntok) + 2 + ite(r.iswildcard, 1, 0)) && tbytes(old(ntok) + 3 + ite(r.iswildcard, 1, 0), uf.iptext(r.ip)) && tsep(old(ntok) + 4 + ite(r.iswildcard, 1, 0)) && tnum(old(ntok) + 5 + ite(r.iswildcard, 1, 0), r.ttl) && tsep(old(ntok) + 6 + ite(r.iswildcard, 1, 0)) && tsep(old(ntok) + 7 + ite(r.iswildcard, 1, 0)) && tloc(old(ntok) + 8 + ite(r.iswildcard, 1, 0), r.lo) && tsep(old(ntok) + 9 + ite(r.iswildcard, 1, 0)) && tnum(old(ntok) + 10 + ite(r.iswildcard, 1, 0), r.weight)
 //@ ensures[count] err == nil ==> ntok == old(ntok) + 11 + ite(r.iswildcard, 1, 0)
+
+// ---- C03: 128-bit address arithmetic ----------------------------------------------------------------------
+//@ spec val128(a IPv6) int = a[0]*1329227995784915872903807060280344576 + a[1]*5192296858534827628530496329220096 + a[2]*20282409603651670423947251286016 + a[3]*79228162514264337593543950336 + a[4]*309485009821345068724781056 + a[5]*1208925819614629174706176 + a[6]*4722366482869645213696 + a[7]*18446744073709551616 + a[8]*72057594037927936 + a[9]*281474976710656 + a[10]*1099511627776 + a[11]*4294967296 + a[12]*16777216 + a[13]*65536 + a[14]*256 + a[15]*1
+// ipIncrementByOne: the address plus one, modulo 2^128 (the carry propagates through ALL sixteen bytes)
+//@ func ipIncrementByOne
+//@ pure
+//@ ensures[plus1] val128(result) == (val128(x) + 1) % 340282366920938463463374607431768211456
+//@ loop 0 invariant -1 <= i && i <= 15 && forall(j, i+1, 16, x[j] == 0 && old(x)[j] == 255) && forall(j, 0, i+1, x[j] == old(x)[j])
+
+// ---- C09: range-point lines ('!') -------------------------------------------------------------------------
+//@ ufun iptext6(IPv6) slice
+//@ ufun isv4mapped(IPv6) bool
+//@ spec tloc2(i int, a int, b int) bool = tokK[i] == 5 && len(tokB[i]) == 2 && tokB[i][0] == a && tokB[i][1] == b
+//@ func putlmaptext
+//@ trusted
+//@ updates ntok, tokK, tokN
+//@ ensures ntok == old(ntok) + 1 && tokK == upd(old(tokK), old(ntok), 6) && tokN == upd(old(tokN), old(ntok), m[0] * 256 + m[1])
+//@ func IPv6.MarshalText
+//@ trusted
+//@ pure
+//@ ensures err == nil ==> result0 == uf.iptext6(ip)
+//@ func IPv6.To4
+//@ trusted
+//@ pure
+//@ ensures (result != nil) == uf.isv4mapped(ip)
+//@ func RangePoint.To16
+//@ pure
+//@ ensures same(result, p.rangeStart)
+//@ func RangePoint.MaskLen
+//@ pure
+//@ ensures result == p.location.maskLen
+//@ func RangePoint.LocIsNull
+//@ pure
+//@ ensures result == p.location.locIDIsNull
+//@ func RangePoint.LocID
+//@ ensures len(result) == 2 && result[0] == p.location.locID[0] && result[1] == p.location.locID[1]
+
+// '!' line: !lmap,ip[,masklen,loc] — the length and location are printed exactly when the point HAS a
+// location (a real location may have prefix length 0: ::/0), the length in the address family's own terms.
+//@ func Rrangepoint.MarshalText
+//@ updates ntok, tokK, tokS, tokB, tokN
+//@ flag skip frame
+//@ requires r.pt != nil
+//@ ensures[head] err == nil ==> tlit(old(ntok), "!") && tsep(old(ntok) + 2)
+//@ ensures[lmap] err == nil ==> tlmap(old(ntok) + 1, r.lmap[0], r.lmap[1])
+//@ ensures[ip] err == nil ==> tbytes(old(ntok) + 3, uf.iptext6(r.pt.rangeStart))
+//@ ensures[null] err == nil && r.pt.location.locIDIsNull ==> ntok == old(ntok) + 4
+//@ ensures[loc] err == nil && !r.pt.location.locIDIsNull ==> ntok == old(ntok) + 8 && tsep(old(ntok) + 4) && tnum(old(ntok) + 5, (r.pt.location.maskLen + ite(uf.isv4mapped(r.pt.rangeStart), 160, 0)) % 256) && tsep(old(ntok) + 6) && tloc2(old(ntok) + 7, r.pt.location.locID[0], r.pt.location.locID[1])
